@@ -226,6 +226,11 @@ func (ap *AP) S(size int, slices ...Slice) (newAP AP, ndStart, ndEnd int, err er
 
 	var outerDim int
 	order := ap.o
+	if ap.o.IsTransposed() && !ap.IsVector() {
+		// the strides of a lazily transposed pattern are permuted: no slice of it,
+		// not even the whole of it, can be read in storage order
+		order = MakeDataOrder(order, NonContiguous)
+	}
 	if ap.o.IsRowMajor() || ap.IsVector() {
 		outerDim = 0
 	} else {
